@@ -592,14 +592,12 @@ package main
 //@   loop 6 each element-relation {C01,C03}: RelS(c, redactFieldNames, inSearchStage, elem, redactedArr[_idx])
 //@   assert_after (*orderedmap.OrderedMap).Set@newMap entry-done {C01,C03,C04}: PAcc(c, redactFieldNames, inSearchStage, A, elPos(el) + 1, om(newMap))
 //@   assert_after (*orderedmap.OrderedMap).Set@newSubMap sub-entry-done {C01,C03,C04}: PAcc(c, redactFieldNames, inSearchStage, old(om(subMap)), elPos(subEl) + 1, om(newSubMap))
-//@   at_call (*orderedmap.OrderedMap).Set@newMap entry-relation {C01,C02,C03,C04,C05,C12}: implies(!((!redactFieldNames && opMeta == VOp(3) && polExprKey(k) && isMap(v) && value == v) || (opMeta == VOp(1) && isArr(v) && value == v) || (redactNamespaces && opMeta == VOp(6) && !isStr(v) && value == v)), keyOKq(c, redactFieldNames, k, key) && ElemRelP(c, redactFieldNames, inSearchStage, k, v, value, om(mapOf(v)), om(mapOf(value))))
+//@   at_call (*orderedmap.OrderedMap).Set@newMap entry-relation {C01,C02,C03,C04,C05,C12}: implies(!((!redactFieldNames && opMeta == VOp(3) && polExprKey(k) && isMap(v) && value == v) || (opMeta == VOp(1) && isArr(v) && value == v)), keyOKq(c, redactFieldNames, k, key) && ElemRelP(c, redactFieldNames, inSearchStage, k, v, value, om(mapOf(v)), om(mapOf(value))))
 //@   at_call (*orderedmap.OrderedMap).Set@newMap entry-relation-expression-document-kept-under-a-field-name-key {C01}: implies((!redactFieldNames && opMeta == VOp(3) && polExprKey(k) && isMap(v) && value == v), keyOKq(c, redactFieldNames, k, key) && ElemRelP(c, redactFieldNames, inSearchStage, k, v, value, om(mapOf(v)), om(mapOf(value))))
 //@   at_call (*orderedmap.OrderedMap).Set@newMap entry-relation-array-kept-under-an-exempt-key {C01}: implies((opMeta == VOp(1) && isArr(v) && value == v) && !(!redactFieldNames && opMeta == VOp(3) && polExprKey(k) && isMap(v) && value == v), keyOKq(c, redactFieldNames, k, key) && ElemRelP(c, redactFieldNames, inSearchStage, k, v, value, om(mapOf(v)), om(mapOf(value))))
-//@   at_call (*orderedmap.OrderedMap).Set@newMap entry-relation-namespace-document-kept-under-the-flag {C12}: implies((redactNamespaces && opMeta == VOp(6) && !isStr(v) && value == v) && !(!redactFieldNames && opMeta == VOp(3) && polExprKey(k) && isMap(v) && value == v) && !(opMeta == VOp(1) && isArr(v) && value == v), keyOKq(c, redactFieldNames, k, key) && ElemRelP(c, redactFieldNames, inSearchStage, k, v, value, om(mapOf(v)), om(mapOf(value))))
-//@   at_call (*orderedmap.OrderedMap).Set@newSubMap sub-entry-relation {C01,C02,C03,C04,C05,C12}: implies(!((!redactFieldNames && subMeta == VOp(3) && polExprKey(subK) && isMap(subV) && value == subV) || (subMeta == VOp(1) && isArr(subV) && value == subV) || (redactNamespaces && subMeta == VOp(6) && !isStr(subV) && value == subV)), keyOKq(c, redactFieldNames, subK, key) && ElemRelP(c, redactFieldNames, inSearchStage, subK, subV, value, om(mapOf(subV)), om(mapOf(value))))
+//@   at_call (*orderedmap.OrderedMap).Set@newSubMap sub-entry-relation {C01,C02,C03,C04,C05,C12}: implies(!((!redactFieldNames && subMeta == VOp(3) && polExprKey(subK) && isMap(subV) && value == subV) || (subMeta == VOp(1) && isArr(subV) && value == subV)), keyOKq(c, redactFieldNames, subK, key) && ElemRelP(c, redactFieldNames, inSearchStage, subK, subV, value, om(mapOf(subV)), om(mapOf(value))))
 //@   at_call (*orderedmap.OrderedMap).Set@newSubMap sub-entry-relation-expression-document-kept-under-a-field-name-key {C01}: implies((!redactFieldNames && subMeta == VOp(3) && polExprKey(subK) && isMap(subV) && value == subV), keyOKq(c, redactFieldNames, subK, key) && ElemRelP(c, redactFieldNames, inSearchStage, subK, subV, value, om(mapOf(subV)), om(mapOf(value))))
 //@   at_call (*orderedmap.OrderedMap).Set@newSubMap sub-entry-relation-array-kept-under-an-exempt-key {C01}: implies((subMeta == VOp(1) && isArr(subV) && value == subV) && !(!redactFieldNames && subMeta == VOp(3) && polExprKey(subK) && isMap(subV) && value == subV), keyOKq(c, redactFieldNames, subK, key) && ElemRelP(c, redactFieldNames, inSearchStage, subK, subV, value, om(mapOf(subV)), om(mapOf(value))))
-//@   at_call (*orderedmap.OrderedMap).Set@newSubMap sub-entry-relation-namespace-document-kept-under-the-flag {C12}: implies((redactNamespaces && subMeta == VOp(6) && !isStr(subV) && value == subV) && !(!redactFieldNames && subMeta == VOp(3) && polExprKey(subK) && isMap(subV) && value == subV) && !(subMeta == VOp(1) && isArr(subV) && value == subV), keyOKq(c, redactFieldNames, subK, key) && ElemRelP(c, redactFieldNames, inSearchStage, subK, subV, value, om(mapOf(subV)), om(mapOf(value))))
 //@   at_call (*orderedmap.OrderedMap).Set@newPipelineMap facet-entry-relation {C01,C03}: key == subK && FacetEntryRel(subV, value)
 //@   ensures key-path-frame: unchangedBelowExcept("Arr:Str", base(keyPath))
 //@   ensures result-kind {C03}: (isMap(stage) && isMap(result) && mapOf(result) > old(heapTop) && mapOf(result) <= heapTop && !isTable(mapOf(result))) || (isArr(stage) && result == stage) || (!isMap(stage) && !isArr(stage) && result == stage)
@@ -651,6 +649,19 @@ package main
 //@   ensures only-this-map: unchangedBelowExcept("Mem:OMap", cmd)
 //@   ensures only-namespace-keys-change {C12,C04}: ChangedOnlyN(A, om(cmd))
 //@   defines namespace-relation {C12}: RelN(redactedString, cmd) := true
+
+//@ func hashNamespaceDocument
+//@   safety C07
+//@   props C12 C03 C06
+//@   assigns GoMaps
+//@   allocs Arr:Int, Arr:Str, Arr:Val, Mem:OMap
+//@   requires map: ns != nil
+//@   local A := om(ns)
+//@   loop 1 invariant frame: unchangedBelow("Mem:OMap") && hashed > old(heapTop) && hashed <= heapTop && !isTable(hashed) && (el == nil || (elMap(el) == ns && 0 <= elPos(el) && elPos(el) < omLen(A))) && redactedString == old(redactedString)
+//@   loop 1 invariant entries-so-far {C12,C03}: NAcc(redactedString, A, ite(el == nil, omLen(A), elPos(el)), om(hashed))
+//@   ensures fresh-result: result != nil && result > old(heapTop) && result <= heapTop && !isTable(result)
+//@   ensures frame: unchangedBelow("Mem:OMap") && redactedString == old(redactedString)
+//@   ensures every-name-is-pseudonymised {C12,C03}: NRel(redactedString, A, om(result))
 
 //@ func redactFieldNamesFromPlanSummary
 //@   safety C07
